@@ -5,6 +5,11 @@ HERE = os.path.dirname(os.path.dirname(os.path.abspath(__file__)))
 
 CLAIMED = {
  # id: (level, technique, text, note, design_ref)
+ "C01": ("exploration",
+         "deterministic simulation: sender, faulty channel (corrupt, truncate, extend, re-frame, splice, reorder, replay) and receiver; accept iff re-encryption reproduces the received tag, plus a sent-history rule",
+         "Seeded search over channel histories for GCM, CCM, EAX, SIV, OCB, ChaCha20-/XChaCha20-Poly1305 (all legal key sizes, nonce lengths and mac_len values) and KW/KWP: 1-6 sealed records, 2-18 deliveries each damaged by one fault (bit flip in nonce/AAD/ciphertext/tag, tag truncated to any length incl. empty, extended or zeroed, ciphertext truncated/extended/rotated, ciphertext-tag boundary moved, fields of two records exchanged, 16-byte blocks swapped incl. neighbours around every power of two in records up to 70 KB; for KW/KWP also structures crafted with the KEK: wrong ICV constant, wrong length field, non-zero padding) and opened through decrypt_and_verify, segmented decrypt+verify, hexverify, output= and repeated verify. The receiver's verdict must equal the reference decision (decrypt, re-encrypt, compare tags byte for byte; independent RFC 3394/5649 unwrap for KW/KWP) and the sent-history rule. Sampling, not proof.",
+         "Restricted claim: 'the tag the specification defines' is replaced by 'the tag the library's own encrypt direction produces' (spec conformance is C02). History-rule rejections are asserted only for tags/ICVs >= 64 bits.",
+         "DESIGN.md section 4 (C01)"),
  "C18": ("fault_enumeration",
          "deterministic simulation with the entropy source as the schedule: exhaustive breadth-first enumeration of entropy tapes for small ranges with exact pre-image counting; boundary, stuck and periodic tapes plus a pigeonhole collision probe at cryptographic sizes",
          "For every configuration of a fixed grid (Integer.random_range for every bound up to 300 [1100 thorough] and all three back-ends, Integer.random, number.getRandom*, StrongRandom getrandbits/randrange/randint/choice/shuffle/sample) the whole tree of entropy tapes is enumerated (every value of every byte requested; retries after a rejection sampled two levels deep) and pre-images are counted exactly: out-of-range values, unequal first-attempt counts, or an imbalance that no completion of the unexplored retry mass could repair are violations. At cryptographic sizes (curve orders, DSA q, RSA moduli; ECC.generate, DSS nonces, blinding) boundary/stuck/periodic tapes decide bounds, dependence on the tape alone (global entropy varied between repetitions), termination, and a pigeonhole probe detects folding of out-of-range candidates. Exhaustive over the stated grid for the first attempt; sampled beyond.",
